@@ -251,6 +251,12 @@ def run(ck):
         if 'crash' in r and r['crash'] == "stack-overflow" and kind != "orig":
             bump("mutant_unbounded_recursion_skipped"); continue
         if 'crash' in r:
+            # which backend dies?  A MUTANT on which BOTH backends (or the shared front end / macro stage) die alike shows no
+            # difference between the backends: that is C03's subject (its crash oracle runs the same mutant streams), not C01's
+            if kind != "orig" and not kind.startswith("wit:"):
+                per = run_impl(iexe, [{**{k: v for k, v in rq.items() if k != "id"}, "backends": [be], "isolate": True} for be in ("vm", "wasm")], timeout_per_batch=120)
+                if all('crash' in x for x in per):
+                    bump("mutant_dies_on_both_backends_alike_C03_matter"); continue
             viol.append(("harness process died (abort / memory error) on a shipped or mutated source", rq['src'], {"file": f, "mutation": kind, "rc": str(r['crash'])})); continue
         a, b = backend_summary(r.get('vm')), backend_summary(r.get('wasm'))
         if a is not None and a[0] == 'ok' and a[1] is None:
